@@ -90,14 +90,15 @@ class Agg:
 
 class KBits:
     """A byte/integer of which only some bits are known (known-bits domain)."""
-    __slots__ = ('mask', 'val')
+    __slots__ = ('mask', 'val', 'cleared')
 
-    def __init__(self, mask, val):
+    def __init__(self, mask, val, cleared=0):
         self.mask = mask          # 1 = bit known
         self.val = val & mask
+        self.cleared = cleared    # bits that were UNKNOWN when a mask forced them (information discarded)
 
     def __repr__(self):
-        return 'KBits(mask=%#x,val=%#x)' % (self.mask, self.val)
+        return 'KBits(mask=%#x,val=%#x%s)' % (self.mask, self.val, ',cleared=%#x' % self.cleared if self.cleared else '')
 
 
 class RangeIt:
@@ -150,15 +151,18 @@ def kbits_binop(op, a, b):
         # bits where the constant is 0 become known 0
         mask = a.mask | (~b.v & 0xff)
         val = (a.val & b.v)
-        return KBits(mask & 0xff, val) if (mask & 0xff) != 0xff else Int(val & 0xff)
+        forced = (~b.v & 0xff) & ~a.mask & 0xff
+        return KBits(mask & 0xff, val, a.cleared | forced) if ((mask & 0xff) != 0xff or (a.cleared | forced)) else Int(val & 0xff)
     if op == 'BitOr':
         mask = a.mask | b.v
         val = a.val | b.v
-        return KBits(mask & 0xff, val) if (mask & 0xff) != 0xff else Int(val & 0xff)
+        return KBits(mask & 0xff, val, a.cleared) if ((mask & 0xff) != 0xff or a.cleared) else Int(val & 0xff)
     if op in ('Eq', 'Ne'):
         # differs from the constant on a known bit -> decided
         if (a.val ^ b.v) & a.mask:
             return Int(0 if op == 'Eq' else 1)
+        if (a.mask & 0xff) == 0xff and b.v < 256:
+            return Int(1 if op == 'Eq' else 0)
         return None
     return None
 
@@ -577,7 +581,7 @@ class Interp:
         elif k == 'repeat':
             n = rv['n']
             v = fr.operand(rv['op'])
-            if isinstance(n, int) and n <= 64:
+            if isinstance(n, int) and n <= 256:
                 fr.storev(dst, Agg([v] * n))
             else:
                 fr.storev(dst, TOP)
